@@ -155,12 +155,15 @@ class ObjFlow:
                     # `..template.clone()`: the fields not named continue the template built in place
                     base = fv[1][2][0]
                     continue
-                if fv[0] == "call" and fv[1].endswith("::clone") and len(fv[2]) == 1 and fv[2][0][0] == "field" and fv[2][0][2] == self.prefix + fname and fv[2][0][1][0] == "local":
-                    # the same, with the derived `clone` of the struct written out field by field
+                if fv[0] == "call" and fv[1].endswith("::clone") and len(fv[2]) == 1 and fv[2][0][0] == "field" and fv[2][0][2] == self.prefix + fname and fv[2][0][1][0] == "local" \
+                        and sum(1 for n2, v2 in v[2] if v2[0] == "call" and v2[1].endswith("::clone") and len(v2[2]) == 1 and v2[2][0][0] == "field" and v2[2][0][1] == fv[2][0][1] and v2[2][0][2] == self.prefix + n2) * 2 >= len(v[2]):
+                    # the same, with the derived `clone` of the struct written out field by field (most fields, each under its own name)
                     base = fv[2][0][1]
                     continue
-                if fv[0] == "field" and fv[2] == self.prefix + fname and fv[1][0] in ("param", "local") and (self.fn.body.local_ty(fv[1][1]) or "").split("<")[0].endswith(self.adt):
+                if fv[0] == "field" and fv[2] == self.prefix + fname and fv[1][0] in ("param", "local") and (self.fn.body.local_ty(fv[1][1]) or "").split("<")[0].endswith(self.adt) \
+                        and sum(1 for n2, v2 in v[2] if v2[0] == "field" and v2[1] == fv[1] and v2[2] == self.prefix + n2) * 2 >= len(v[2]):
                     # `Message { to: leader, ..m }`: the fields not named are moved out of another object of the type
+                    # (at least half of all fields come from it under their own names -- one `index: m.index` does not)
                     base = fv[1]
                     continue
                 st[fname] = self.vid(fv)
